@@ -1,5 +1,6 @@
 CONSTANTS
   Alias = FALSE
+  ExplicitPrefixed = FALSE
   MaxLen = 5
   ExportLen = 5
 INIT Init
